@@ -2,11 +2,11 @@ package main
 
 import (
 	"fmt"
-	"sort"
-	"strings"
 	"go/ast"
 	"go/token"
 	"go/types"
+	"sort"
+	"strings"
 )
 
 // ARGSWAP — a call passes two of the caller's identifiers whose names are the callee's parameter
